@@ -69,6 +69,7 @@ def setup(rep, tier):
     rep.minimum('R12.9', 3)
     rep.minimum('R12.10', 10)
     rep.minimum('R12.11', 2)
+    rep.minimum('R12.12', 2)
 
 
 # ------------------------------------------------------------------ helpers
@@ -1221,7 +1222,85 @@ def r12_11(rep, prog):
     return n
 
 
+# ------------------------------------------------------------------ R12.12
+def r12_12(rep, prog):
+    """memories of the multistream encoder that live behind the sub-encoders and are reached through an accessor function
+    (static, takes the state, returns a pointer into it) are history: the encode path reads and rewrites them in every
+    call in which its guard holds.  OPUS_RESET_STATE must therefore clear each of them under a condition that the use
+    condition implies - structurally: every equality test that guards the clear in the reset handler also guards every use
+    (a weaker or equal guard).  The initialiser is the reference sibling: when it agrees with the uses and the reset handler
+    does not, the reset handler is the deviant and a reset object keeps history that a new object does not have."""
+    msfile = None
+    accs = []
+    for f in prog.functions_all:
+        ps = f.params
+        if f.static and len(ps) == 1 and ps[0].get('record') == 'OpusMSEncoder' and f.d.get('ret', '').endswith('*') and 'const' not in f.d.get('ret', ''):
+            accs.append(f)
+            msfile = f.file
+    if not accs:
+        return
+    hf, hcf, arm = arm_blocks(prog, 'opus_multistream_encoder_ctl_va_list', 'OPUS_RESET_STATE')
+
+    def atoms(g, cf, b, i):
+        # params stored into a field of the state stand for that field
+        p2f = {}
+        for x in g.all_nodes():
+            if x[0] == 'assign' and sx.kind(sx.strip(x[1])) == 'field' and sx.kind(sx.strip(x[2])) == 'param':
+                p2f[sx.strip(x[2])[1]] = sx.strip(x[1])[3]
+        out = set()
+        for a in T.stable_facts(cf, b, i):
+            if a[0] not in ('==', '!=') or not (isinstance(a[2], tuple) and a[2][0] == 'int'):
+                continue
+            v = a[1]
+            if isinstance(v, tuple) and v[0] == 'field':
+                out.add((a[0], v[-1] if isinstance(v[-1], str) else str(v), a[2][1]))
+            elif isinstance(v, tuple) and v[0] == 'param' and v[1] in p2f:
+                out.add((a[0], p2f[v[1]], a[2][1]))
+            elif isinstance(v, tuple) and v[0] == 'local':
+                out.add((a[0], str(v), a[2][1]))
+            # tests of call results (argument validation with an early return) hold on every path that continues
+        return out
+
+    for acc in accs:
+        uses, inits, resets = [], [], []
+        for g in prog.functions_all:
+            if g.file != msfile or g.name == acc.name:
+                continue
+            cf = hcf if g.name == hf.name else cfgm.CFG(g)
+            for b, i, n in cf.find(lambda n: n[0] == 'call' and sx.callee_name(n) == acc.name):
+                site = (g, sx.line(n) or g.line, atoms(g, cf, b, i))
+                if g.name == hf.name:
+                    (resets if b in arm.blocks else uses).append(site)
+                elif 'init' in g.name:
+                    inits.append(site)
+                elif g.static and len(g.params) == 1 and any(sx.callee_name(c) == g.name for a2 in accs for c in a2.calls()):
+                    continue        # an accessor built on another accessor
+                else:
+                    uses.append(site)
+        inst = '%s:%s memory is cleared by OPUS_RESET_STATE whenever the encoder uses it' % (prog.config, acc.name)
+        if not uses:
+            rep.unresolved('R12.12', inst + ': no use site found')
+            continue
+        show = lambda A: ' && '.join('%s %s %s' % (v, op, c) for op, v, c in sorted(A)) or 'always'
+        if not resets:
+            rep.violated('R12.12', inst, hf.where(arm.line), 'the reset handler never reaches this memory (used at line %s under `%s`)' % (uses[0][1], show(uses[0][2])), key=acc.name + ':reset-missing')
+            continue
+        bad = [(r, u) for r in resets for u in uses if not r[2] <= u[2]]
+        if not bad:
+            rep.holds('R12.12', inst, '%s:%s' % (hf.file, resets[0][1]), 'reset clears under `%s`; %d use site(s) under `%s`; init under `%s`' % (
+                show(resets[0][2]), len(uses), show(uses[0][2]), show(inits[0][2]) if inits else '-'))
+        elif inits and all(i_[2] <= u[2] for i_ in inits for u in uses):
+            r, u = bad[0]
+            rep.violated('R12.12', inst, '%s:%s' % (hf.file, r[1]),
+                         'used at %s:%s under `%s` and cleared by the initialiser under `%s`, but the reset handler clears it only under `%s`, which the use condition does not imply: '
+                         'in a state where the first holds and the second does not, a reset encoder keeps the analysis history of the previous stream while a new one starts from zero' % (
+                             u[0].file, u[1], show(u[2]), show(inits[0][2]), show(r[2])), key=acc.name + ':reset-guard')
+        else:
+            rep.unresolved('R12.12', inst + ': guards of reset, init and use sites cannot be compared (%s / %s / %s)' % (show(bad[0][0][2]), show(inits[0][2]) if inits else '-', show(bad[0][1][2])))
+
+
 def check(rep, prog, tier):
+    r12_12(rep, prog)
     r12_11(rep, prog)
     r12_10(rep, prog)
     r12_9(rep, prog)
